@@ -22,6 +22,9 @@ type C03Event struct {
 	Tags    []uint32
 	Payload []byte
 	Frags   int // number of packets held in all fragment tables of the world at that moment
+	// P is the Packet itself: the real mux consumer is asynchronous and looks at it only after
+	// receive() has returned, so the harness reads it again at that point
+	P *com.Packet
 }
 
 // C03World is a listener with registered sessions and a recording mux, without any network.
@@ -42,7 +45,7 @@ func (m *c03Mux) queue(e event) {
 	}
 	m.w.Events = append(m.w.Events, C03Event{
 		Sid: e.s.ID, ID: e.p.ID, Job: e.p.Job, Device: e.p.Device, Flags: e.p.Flags,
-		Tags: append([]uint32(nil), e.p.Tags...), Payload: append([]byte(nil), e.p.Payload()...), Frags: m.w.fragCount(),
+		Tags: append([]uint32(nil), e.p.Tags...), Payload: append([]byte(nil), e.p.Payload()...), Frags: m.w.fragCount(), P: e.p,
 	})
 }
 func (w *C03World) fragCount() int {
